@@ -178,6 +178,9 @@ def lexer_inputs(ctx, tools, n_soup, n_bytes, n_layout):
             lex, _ = lexeme_list(t)
             srcs.append(W.relayout(lex, rng, "mixed").encode("utf-8", "surrogateescape"))
             tags.append("layout")
+    for b in W.eof_edge_inputs():
+        srcs.append(b)
+        tags.append("eof")
     # hand-picked boundary cases
     for s in ["", "\n", "//", "// x", "/*", "/* /* */", "1.", "1.x", "1..2", "0x", "a/**/b", "a//\rb\nc", "x/ /**/y", "1/**/.0",
               ">>=", "> >=", "a>>=b", "1.e+", "1e+x", "é", "éé=1", "/*\r\n*/x", "\t\r\n", "a\rb", "1lf", "1li", "0xlf", "1.5lfx"]:
